@@ -10,6 +10,9 @@
 #include <boost/asio/cancellation_signal.hpp>
 template class std::basic_string<char>;
 
+// the seed of the reconnect backoff generator (std::time(0)) is fixed in whole-client harnesses; the generator is examined in C10
+extern "C" { __attribute__((used)) inline int64_t vk_time_fixed = 1700000000; }
+
 namespace wc {
 namespace asio = boost::asio;
 using namespace boost::mqtt5;
@@ -41,6 +44,7 @@ struct W {
   msg_rec msgs[MAXMSG]; int nmsgs = 0; int receive_pending = 0;
   int run_done = 0; int run_ec = -1;
   bool in_api = false;
+  int64_t last_backoff_ms = -1;
 
   // ------------------------------------------------------------ network plumbing
   void new_connection() { epoch++; connack_sent = false; rx_n = rx_parsed = 0; out_n = out_pos = 0; }
@@ -63,6 +67,7 @@ struct W {
       r.type = k.type; r.qos = k.type == ref::PUBLISH ? k.qos : 0; r.dup = k.type == ref::PUBLISH && k.dup; r.retain = k.type == ref::PUBLISH && k.retain;
       r.rc = k.rc; r.has_rc = k.has_rc; r.pid = k.pid; r.epoch = epoch; r.off = (uint32_t)rx_parsed; r.len = k.total; r.write_no = writes_completed;
       rx_parsed += k.total;
+      vk_event(100 + k.type, ((uint64_t)epoch << 32) | ((uint64_t)r.qos << 24) | ((uint64_t)r.dup << 20) | ((uint64_t)r.rc << 16) | k.pid);
     }
   }
   bool redecode(const pkt_rec& r, ref::packet& k) const { return r.epoch == epoch && ref::decode(rx + r.off, r.len, k) == ref::OK; }
@@ -86,8 +91,14 @@ struct W {
     in_api = false;
     vk::drain();
   }
-  // drive resolve + TCP connect + CONNECT write of one attempt; returns false if no attempt is in progress
+  // drive (backoff timer) + resolve + TCP connect + CONNECT write of one attempt; false if no attempt is in progress
   bool establish() {
+    for (int guard = 0; guard < 4; guard++) {
+      if (vk::pending_resolve() || vk::pending_connect()) break;
+      // a reconnect that wrapped around the broker list pauses on the connect timer (timer #1 of the client) first
+      vk::timer_rec* t = vk::world().timers.size() > 1 ? vk::world().timers[1] : nullptr;
+      if (t && t->armed && vk::timer_can_fire(t)) { last_backoff_ms = t->dur_ms; vk::timer_fire(t); vk::drain(); } else break;
+    }
     if (auto* r = vk::pending_resolve()) { vk::complete_resolve(r, {}, 1); vk::drain(); }
     vk::sock_rec* s = vk::pending_connect(); if (!s) return false;
     vk::complete_connect(s, {}); new_connection(); vk::drain();
